@@ -13,6 +13,8 @@ def run(ctx):
                              "variant that resets the channel only after a successful flush: residue reaches the next message")
     ctx.tlc_expect_violation("", "TxPath", "MC_TxPath_Abort_NoEomCtx.cfg",
                              "variant without a context check before the terminating empty packet (C13: writes with a cancelled context)")
+    ctx.tlc_expect_violation("", "TxPath", "MC_TxPath_Abort_ResetClearsOpen.cfg",
+                             "variant whose Reset clears txMsgOpen: the flush repeated after one that was given up no longer terminates the message")
     g1 = ctx.tlc_generate("", "TxPath", "Gen_TxPath_thorough.cfg" if thorough else "Gen_TxPath.cfg", workers=4)
     g2 = ctx.tlc_generate("", "TxPath", "GenSim_TxPath.cfg", workers=4,
                           args=["-simulate", "num=%d" % (1500 if thorough else 200), "-depth", "13", "-seed", str(ctx.seed)])
